@@ -434,10 +434,29 @@ def w_buffer_reuse(item, seed=0, depth=2):
             ref_buf = np.zeros(shape)
             im_buf = np.zeros(shape)
         est = None
+        seen_ptrs = set()
         for step, ci in enumerate(hist):
             which, s = REUSE_CASES[ci]
             im = make_image(shape, which, seed)
             ref = fshift(im, s)
+            if impl.endswith(":fresh"):
+                # OBJECT IDENTITY reuse: short-lived arguments. The previous call's arrays / tensors are released before the
+                # next ones are allocated, so the allocator hands out the same addresses (and CPython the same id()) again
+                # for new contents; observed reuse is counted and required (see run()).
+                ref_buf = im_buf = None
+                if impl == "torch:fresh":
+                    ref_buf = torch.tensor(ref)
+                    im_buf = torch.tensor(im)
+                    ptr = (ref_buf.data_ptr(), im_buf.data_ptr())
+                    est = U.cross_correlation_shift_torch(ref_buf, im_buf, upsample_factor=up).detach().cpu().numpy().astype(float)
+                else:
+                    ref_buf = np.array(ref)
+                    im_buf = np.array(im)
+                    ptr = (ref_buf.ctypes.data, im_buf.ctypes.data)
+                    est = np.asarray(U.cross_correlation_shift(ref_buf, im_buf, upsample_factor=up), float)
+                t.extra["address_reused"] += int(bool(set(ptr) & seen_ptrs))
+                seen_ptrs |= set(ptr)
+                continue
             if impl.startswith("torch"):
                 if impl == "torch:from_numpy":
                     np.copyto(ref_np, ref)
@@ -515,10 +534,12 @@ def run(ctx):
     )
 
     def once():
-        t = Tally()
-        check_point(t, "numpy", (8, 11), "0", (2.25, -1.5), 8, ctx.seed)
-        check_point(t, "torch", (9, 9), "1", (3, 7), 4, ctx.seed)
-        return (sorted(t.outcomes), t.nfails)
+        # harness-owned determinism only (image builder, independent Fourier translation): the estimators themselves are
+        # the behaviour under test, and an estimator that answers differently on a second identical call must surface as
+        # a VIOLATION of the histories below, not as a broken harness
+        im = make_image((8, 11), "0", ctx.seed)
+        ref = fshift(im, (2.25, -1.5))
+        return (im.tobytes(), ref.tobytes(), make_image((9, 9), "1", ctx.seed).tobytes(), wrapdiff((7.5, -6.0), (0, 0), (9, 9)).tobytes())
 
     ctx.selftest(once)
     images = ["0", "blob"] if q else ["0", "1", "2", "blob"]
@@ -554,9 +575,12 @@ def run(ctx):
     ctx.coverage["bounds"]["scale_modes"] = {"scales": SCALES, "modes": MODES, "points": len(sm)}
     ctx.pmap(w_scale_modes, sm, chunk=1, label="image scale / process-wide modes", seed=ctx.seed)
     ctx.pmap(w_reentrant, [((8, 11), 1), ((8, 11), 4)] if q else [(sh, u) for sh in [(8, 11), (9, 9)] for u in (1, 3, 8)], chunk=1, label="re-entrant calls", seed=ctx.seed)
-    reuse = list(itertools.product(list(impls) + ["torch:from_numpy", "torch:data"], [(8, 11)] if q else [(8, 11), (9, 9)], [1, 4] if q else [1, 3, 8], range(len(REUSE_CASES))))
+    reuse = list(itertools.product(list(impls) + ["torch:from_numpy", "torch:data", "torch:fresh", "numpy:fresh"], [(8, 11)] if q else [(8, 11), (9, 9)], [1, 4] if q else [1, 3, 8], range(len(REUSE_CASES))))
     ctx.coverage["bounds"]["buffer_reuse"] = {"cases": [[w, list(sh)] for w, sh in REUSE_CASES], "depth": 2 if q else 3}
-    ctx.pmap(w_buffer_reuse, reuse, chunk=1, label="reused buffers (call histories)", seed=ctx.seed, depth=2 if q else 3)
+    mr = ctx.pmap(w_buffer_reuse, reuse, chunk=1, label="reused buffers / short-lived arguments (call histories)", seed=ctx.seed, depth=2 if q else 3)
+    ctx.coverage["address_reuse_observed"] = int(mr.extra["address_reused"])
+    if mr.extra["address_reused"] == 0:
+        raise Broken("no address was handed out twice in the short-lived-argument histories: the identity-reuse dimension is vacuous")
     if len(ctx.tally.outcomes) < 50:
         raise Broken("too few distinct outcomes: shifts did not vary")
 
